@@ -11,7 +11,8 @@ MAP_PRIVATE, MAP_FIXED, MAP_ANON = 2, 0x10, 0x20
 class Session(object):
     """one emulated process: a python-backend x86-32 jitter, a fresh process heap, a fresh Linux environment"""
 
-    def __init__(self):
+    def __init__(self, family="win"):
+        self.family = family
         from miasm.analysis.machine import Machine
         from miasm.core.locationdb import LocationDB
         from miasm.os_dep import win_api_x86_32 as win
@@ -62,6 +63,18 @@ class Session(object):
             a = self.fixed_next
             self.fixed_next += 0x10000
             return self.env.mmap(a, n, 3, MAP_PRIVATE | MAP_ANON | MAP_FIXED, 0xffffffff, 0, vm)
+        if kind in ("foreign", "foreignbrk"):
+            # another component (a loader, a fixed mapping) maps a page just above the allocator's cursor: it is a live mapping
+            # the following allocations have to stay clear of (refusing - raising - is fine, overlapping is not)
+            from miasm.jitter.csts import PAGE_READ, PAGE_WRITE
+            if self.family == "win":
+                a = self.heap.addr + 0x2000
+            elif kind == "foreign":
+                a = self.env.mmap_current + 0x2000
+            else:
+                a = ((self.env.brk_current + 0xfff) & ~0xfff) + 0x1000
+            vm.add_memory_page(a, PAGE_READ | PAGE_WRITE, b"F" * max(n, 1), "foreign")
+            return a
         if kind == "brk":
             old = self.env.brk(0, vm)
             if n == 0:
@@ -76,14 +89,18 @@ class Session(object):
         return [{"base": b, "size": info["size"]} for b, info in sorted(self.j.vm.get_all_memory().items())]
 
 
+REFUSED = {}
+
+
 def record(seq):
-    s = Session()
+    s = Session("linux" if any(k in KINDS[4:] or k == "foreignbrk" for k, _ in seq) else "win")
     tr = []
     for kind, n in seq:
         try:
             a = s.alloc(kind, n)
         except Exception as ex:
-            tr.append({"o": {"kind": kind, "n": n}, "ret": "EXC:" + type(ex).__name__, "a": -1, "pages": [], "st": {}})
+            # a refused request allocates nothing: the history ends here (refusals are counted in the evidence)
+            REFUSED[kind + ":" + type(ex).__name__] = REFUSED.get(kind + ":" + type(ex).__name__, 0) + 1
             break
         if a is None:
             continue
@@ -108,6 +125,19 @@ def run(ctx):
                 seqs.append(list(t))
         for _ in range(150 if q else 1500):
             seqs.append([rng.choice(reqs) for _ in range(rng.randrange(3, 9))])
+    # a foreign page in the allocator's way (it is the highest mapping of the address space), then requests that run into it
+    for fam, foreign in ((KINDS[:4], ["foreign"]), (KINDS[4:], ["foreign", "foreignbrk"])):
+        for f in foreign:
+            for k in fam:
+                for fn in (1, 0x1000):
+                    for n in (0x800, 0x1000, 0x3000, 0x5000):
+                        seqs.append([(f, fn), (k, n), (k, n)])
+                        seqs.append([(k, 0x800), (f, fn), (k, n), (k, 0x20)])
+                        seqs.append([(k, 0x800), (k, 1), (k, 1), (f, fn), (k, n)])
+            for _ in range(60 if q else 600):
+                seq = [rng.choice([(k, n) for k in fam for n in SIZES + [0x3000]]) for _ in range(rng.randrange(2, 7))]
+                seq.insert(rng.randrange(0, len(seq)), (f, rng.choice([1, 0x1000, 0x2000])))
+                seqs.append(seq)
     # same kind and size repeated (zero-sized ones included): the classic way to get the same address twice
     for k in KINDS:
         for n in SIZES:
@@ -115,16 +145,34 @@ def run(ctx):
             seqs.append([(k, 0), (k, n), (k, 0), (k, 0x20)])
     traces = [record(s) for s in seqs]
     traces = [t for t in traces if t]
-    sm.trace_validate(ctx, "Alloc", {}, traces, tdo="Do(e.o, e.a, e.pages)", timeout=3000)
+    brk_rejects = []
+
+    def defer_brk(ctx_, detail):
+        if detail["rejected_event"] and detail["rejected_event"]["o"]["kind"] == "brk" and "brk-absorbs-foreign-mappings" in ctx.findings:
+            brk_rejects.append(traces[detail["trace_index"] - 1])
+            return True
+        return False
+    sm.trace_validate(ctx, "Alloc", {"BrkAbsorbs": "FALSE"}, traces, tdo="Do(e.o, e.a, e.pages)", timeout=3000, classify=defer_brk)
+    if brk_rejects:
+        # histories rejected at a brk: validated again (whole history) with the recorded deviation admitted; what is still
+        # rejected is a violation, the others are the known finding
+        bad = sm.trace_validate(ctx, "Alloc", {"BrkAbsorbs": "TRUE"}, brk_rejects, label="brkabsorb", tdo="Do(e.o, e.a, e.pages)", timeout=3000)
+        if len(bad) < len(brk_rejects):
+            ok = [t for i, t in enumerate(brk_rejects, 1) if i not in [b[0] for b in bad]][0]
+            ctx.known("brk-absorbs-foreign-mappings", "%d histories, e.g. %s" % (
+                len(brk_rejects) - len(bad), [(e["o"]["kind"], hex(e["o"]["n"]), hex(e["a"])) for e in ok]))
+        ctx.notes["histories_accepted_only_with_the_brk_deviation"] = len(brk_rejects) - len(bad)
 
     def corrupt(ts):
         ts[0][-1]["a"] = ts[0][0]["a"]
         return "second allocation reported at the first one's address"
     two = [t for t in traces if len(t) >= 2 and t[0]["a"] != t[1]["a"]][:3]
-    sm.selftest_trace_binding(ctx, "Alloc", {}, two, corrupt, tdo="Do(e.o, e.a, e.pages)")
+    sm.selftest_trace_binding(ctx, "Alloc", {"BrkAbsorbs": "FALSE"}, two, corrupt, tdo="Do(e.o, e.a, e.pages)")
     ctx.notes["request_sequences"] = len(seqs)
+    ctx.notes["refused_requests"] = dict(REFUSED)
     ctx.assumptions += ["x86-32 environments: process heap (heap.vm_alloc, VirtualAlloc(NULL), HeapAlloc, malloc through the stubs on a "
                         "python-backend jitter), LinuxEnvironment mmap (no hint, hint, MAP_FIXED at a free address) and brk",
+                        "a 'foreign' request maps a page directly in the VM just above the allocator's cursor; it is live like any other",
                         "MAP_FIXED over an existing mapping (which replaces it by design) and frees are not exercised"]
     return ("request histories (every pair - thorough: triples - of {heap, VirtualAlloc, HeapAlloc, malloc, mmap, mmap with hint, "
             "mmap fixed, brk} x sizes {0, 1, 0xfff, 0x1000, 0x1001}, repeats, random mixes up to 8 requests) are executed and every "
